@@ -320,7 +320,6 @@ package smtp
 //@   ensures @C11 any-other-reverse-path-is-a-path: !(len(old(p.s)) >= 2 && old(p.s)[0] == 60 && old(p.s)[1] == 62) ==> called("(*parser).parsePath") && s == resultof("(*parser).parsePath", 1, 1) && err == resultof("(*parser).parsePath", 1, 2)
 //@   ensures @C11 a-path-is-handed-on-as-the-text-between-its-brackets: err == nil && len(old(p.s)) >= 2 && old(p.s)[0] == 60 && old(p.s)[1] != 64 && old(p.s)[1] != 34 && old(p.s)[1] != 62 ==> len(s) == (len(old(p.s)) - len(p.s)) - 2 && (forall i :: 0 <= i && i < len(s) ==> s[i] == old(p.s)[i + 1]) && old(p.s)[(len(old(p.s)) - len(p.s)) - 1] == 62
 //@   ensures @C11 an-opening-bracket-needs-its-closing-bracket: err == nil && len(old(p.s)) >= 1 && old(p.s)[0] == 60 ==> (len(old(p.s)) - len(p.s)) >= 2 && old(p.s)[(len(old(p.s)) - len(p.s)) - 1] == 62
-//@   ensures @C11 a-well-formed-bracketed-path-is-accepted: len(old(p.s)) >= 1 && old(p.s)[0] == 60 && (exists a: int :: exists e: int :: 2 <= a && a + 2 <= e && e < len(old(p.s)) && (forall i :: 1 <= i && i < a ==> isLtext(old(p.s)[i])) && old(p.s)[a] == 64 && (forall i :: a < i && i < e ==> isDtext(old(p.s)[i])) && old(p.s)[e] == 62) ==> err == nil
 //@ contract (*parser).parsePath(p) (s, err)
 //@   prop C11 C19
 //@   requires p != nil
@@ -333,7 +332,7 @@ package smtp
 //@   ensures @C11 a-path-without-source-route-is-refused-only-for-its-mailbox-or-a-missing-closing-bracket: err != nil && !(len(old(p.s)) >= 1 && (old(p.s)[0] == 64 || (len(old(p.s)) >= 2 && old(p.s)[0] == 60 && old(p.s)[1] == 64))) ==> resultof("(*parser).parseMailbox", 1, 2) != nil || (len(old(p.s)) >= 1 && old(p.s)[0] == 60 && (len(p.s) == 0 || p.s[0] != 62))
 //@   before (*parser).parseMailbox: @C11 what-is-left-for-the-mailbox-parser-is-the-rest-of-the-input: len(p.s) <= len(old(p.s)) && (forall i :: 0 <= i && i < len(p.s) ==> p.s[i] == old(p.s)[len(old(p.s)) - len(p.s) + i])
 //@   before (*parser).parseMailbox: @C11 the-mailbox-parser-starts-right-after-the-opening-bracket: (len(old(p.s)) >= 1 && old(p.s)[0] == 60 && (len(old(p.s)) < 2 || old(p.s)[1] != 64) ==> len(p.s) == len(old(p.s)) - 1) && ((len(old(p.s)) == 0 || (old(p.s)[0] != 60 && old(p.s)[0] != 64)) ==> len(p.s) == len(old(p.s)))
-//@   ensures @C11 a-well-formed-bracketed-path-is-accepted: len(old(p.s)) >= 1 && old(p.s)[0] == 60 && (exists a: int :: exists e: int :: 2 <= a && a + 2 <= e && e < len(old(p.s)) && (forall i :: 1 <= i && i < a ==> isLtext(old(p.s)[i])) && old(p.s)[a] == 64 && (forall i :: a < i && i < e ==> isDtext(old(p.s)[i])) && old(p.s)[e] == 62) ==> err == nil
+//@   ensures @C11 a-well-formed-bracketed-path-whose-mailbox-was-accepted-is-not-refused: len(old(p.s)) >= 1 && old(p.s)[0] == 60 && resultof("(*parser).parseMailbox", 1, 2) == nil && (exists a: int :: exists e: int :: 2 <= a && a + 2 <= e && e < len(old(p.s)) && (forall i :: 1 <= i && i < a ==> isLtext(old(p.s)[i])) && old(p.s)[a] == 64 && (forall i :: a < i && i < e ==> isDtext(old(p.s)[i])) && old(p.s)[e] == 62) ==> err == nil
 //@ contract (*parser).parseMailbox(p) (s, err)
 //@   prop C11 C19
 //@   requires p != nil
@@ -343,17 +342,19 @@ package smtp
 //@   ensures @C11 local-part-at-sign-domain: err == nil ==> len(resultof("(*parser).parseLocalPart", 1, 1)) >= 1 && len(s) >= len(resultof("(*parser).parseLocalPart", 1, 1)) + 2 && s[len(resultof("(*parser).parseLocalPart", 1, 1))] == 64 && (forall i :: 0 <= i && i < len(resultof("(*parser).parseLocalPart", 1, 1)) ==> s[i] == resultof("(*parser).parseLocalPart", 1, 1)[i])
 //@   ensures @C11 the-domain-is-handed-on-as-it-was-sent-and-holds-no-special: err == nil ==> (forall i :: len(resultof("(*parser).parseLocalPart", 1, 1)) < i && i < len(s) ==> s[i] == old(p.s)[(len(old(p.s)) - len(p.s)) - len(s) + i] && !domStop(s[i]) && (s[len(resultof("(*parser).parseLocalPart", 1, 1)) + 1] != 91 ==> !domSpecial(s[i])))
 //@   ensures @C11 the-mailbox-ends-at-a-blank-or-the-closing-bracket: err == nil ==> len(p.s) == 0 || domStop(p.s[0])
+//@   ensures @C11 an-accepted-mailbox-holds-no-control-octet: err == nil ==> (forall i :: 0 <= i && i < len(s) ==> !isCtl(s[i]))
 //@   ensures @C11 an-unquoted-mailbox-holds-no-blank-and-no-closing-bracket: err == nil && len(old(p.s)) >= 1 && old(p.s)[0] != 34 ==> (forall i :: 0 <= i && i < len(s) ==> !domStop(s[i]))
 //@   ensures @C11 a-quoted-local-part-is-followed-by-the-at-sign: err == nil && len(old(p.s)) >= 1 && old(p.s)[0] == 34 ==> qscan(old(p.s), 1) >= 1 && old(p.s)[qscan(old(p.s), 1) + 1] == 64 && len(s) - len(resultof("(*parser).parseLocalPart", 1, 1)) == (len(old(p.s)) - len(p.s)) - qscan(old(p.s), 1) - 1
 //@   ensures @C11 a-well-formed-mailbox-is-accepted: (exists a: int :: exists e: int :: 1 <= a && a + 2 <= e && e <= len(old(p.s)) && (forall i :: 0 <= i && i < a ==> isLtext(old(p.s)[i])) && old(p.s)[a] == 64 && (forall i :: a < i && i < e ==> isDtext(old(p.s)[i])) && (e == len(old(p.s)) || domStop(old(p.s)[e]))) ==> err == nil
-//@   ensures @C11 a-well-formed-mailbox-with-an-address-literal-is-accepted: (exists a: int :: exists e: int :: 1 <= a && a + 2 <= e && e <= len(old(p.s)) && (forall i :: 0 <= i && i < a ==> isLtext(old(p.s)[i])) && old(p.s)[a] == 64 && old(p.s)[a + 1] == 91 && old(p.s)[e - 1] == 93 && (forall i :: a < i && i < e ==> !domStop(old(p.s)[i])) && (e == len(old(p.s)) || domStop(old(p.s)[e]))) ==> err == nil
-//@   ensures @C11 a-well-formed-mailbox-with-a-quoted-local-part-is-accepted: (exists e: int :: len(old(p.s)) >= 1 && old(p.s)[0] == 34 && qscan(old(p.s), 1) >= 2 && qscan(old(p.s), 1) + 3 <= e && e <= len(old(p.s)) && old(p.s)[qscan(old(p.s), 1) + 1] == 64 && (forall i :: qscan(old(p.s), 1) + 1 < i && i < e ==> isDtext(old(p.s)[i])) && (e == len(old(p.s)) || domStop(old(p.s)[e]))) ==> err == nil
+//@   ensures @C11 a-well-formed-mailbox-with-an-address-literal-is-accepted: (exists a: int :: exists e: int :: 1 <= a && a + 2 <= e && e <= len(old(p.s)) && (forall i :: 0 <= i && i < a ==> isLtext(old(p.s)[i])) && old(p.s)[a] == 64 && old(p.s)[a + 1] == 91 && old(p.s)[e - 1] == 93 && (forall i :: a < i && i < e ==> !domStop(old(p.s)[i]) && !isCtl(old(p.s)[i])) && (e == len(old(p.s)) || domStop(old(p.s)[e]))) ==> err == nil
+//@   ensures @C11 a-well-formed-mailbox-with-a-quoted-local-part-is-accepted: (exists e: int :: len(old(p.s)) >= 1 && old(p.s)[0] == 34 && qscan(old(p.s), 1) >= 2 && (forall i :: 1 <= i && i < qscan(old(p.s), 1) ==> !isCtl(old(p.s)[i])) && qscan(old(p.s), 1) + 3 <= e && e <= len(old(p.s)) && old(p.s)[qscan(old(p.s), 1) + 1] == 64 && (forall i :: qscan(old(p.s), 1) + 1 < i && i < e ==> isDtext(old(p.s)[i])) && (e == len(old(p.s)) || domStop(old(p.s)[e]))) ==> err == nil
 //@   loop 1:
 //@     invariant len(p.s) <= len(old(p.s)) && (forall i :: 0 <= i && i < len(p.s) ==> p.s[i] == old(p.s)[len(old(p.s)) - len(p.s) + i])
 //@     invariant len(resultof("(*parser).parseLocalPart", 1, 1)) >= 1 && len(sb.content) >= len(resultof("(*parser).parseLocalPart", 1, 1)) + 1 && sb.content[len(resultof("(*parser).parseLocalPart", 1, 1))] == 64 && (forall i :: 0 <= i && i < len(resultof("(*parser).parseLocalPart", 1, 1)) ==> sb.content[i] == resultof("(*parser).parseLocalPart", 1, 1)[i])
 //@     invariant (old(p.s)[0] != 34 ==> (len(old(p.s)) - len(p.s)) == len(sb.content)) && (old(p.s)[0] == 34 ==> (len(old(p.s)) - len(p.s)) - len(sb.content) == qscan(old(p.s), 1) + 1 - len(resultof("(*parser).parseLocalPart", 1, 1)) && qscan(old(p.s), 1) >= 1 && old(p.s)[qscan(old(p.s), 1) + 1] == 64)
 //@     invariant len(old(p.s)) >= 1 && (len(old(p.s)) - len(p.s)) >= len(sb.content) && old(p.s)[(len(old(p.s)) - len(p.s)) - len(sb.content) + len(resultof("(*parser).parseLocalPart", 1, 1))] == 64
 //@     invariant @C11 domain-so-far-is-what-was-read-and-holds-no-special: forall i :: len(resultof("(*parser).parseLocalPart", 1, 1)) < i && i < len(sb.content) ==> sb.content[i] == old(p.s)[(len(old(p.s)) - len(p.s)) - len(sb.content) + i] && !domStop(sb.content[i]) && (!literal ==> !domSpecial(sb.content[i]))
+//@     invariant @C11 no-control-octet-so-far: forall i :: 0 <= i && i < len(sb.content) ==> !isCtl(sb.content[i])
 //@     invariant @C11 no-special-in-the-domain-so-far: forall j :: (len(old(p.s)) - len(p.s)) - len(sb.content) + len(resultof("(*parser).parseLocalPart", 1, 1)) < j && j < (len(old(p.s)) - len(p.s)) ==> !domStop(old(p.s)[j]) && (!literal ==> !domSpecial(old(p.s)[j]))
 //@     invariant literal == ((len(old(p.s)) - len(p.s)) - len(sb.content) + len(resultof("(*parser).parseLocalPart", 1, 1)) + 1 < len(old(p.s)) && old(p.s)[(len(old(p.s)) - len(p.s)) - len(sb.content) + len(resultof("(*parser).parseLocalPart", 1, 1)) + 1] == 91)
 //@ contract (*parser).parseLocalPart(p) (s, err)
@@ -362,20 +363,22 @@ package smtp
 //@   modifies p.s
 //@   ensures @C11 input-is-consumed-from-the-front: len(p.s) <= len(old(p.s)) && (forall i :: 0 <= i && i < len(p.s) ==> p.s[i] == old(p.s)[len(old(p.s)) - len(p.s) + i])
 //@   ensures @C11 a-dot-string-is-handed-on-as-it-was-sent: err == nil && (len(old(p.s)) == 0 || old(p.s)[0] != 34) ==> len(s) == len(old(p.s)) - len(p.s) && (forall i :: 0 <= i && i < len(s) ==> s[i] == old(p.s)[i])
-//@   ensures @C11 a-dot-string-contains-no-special-and-ends-at-the-at-sign: err == nil && (len(old(p.s)) == 0 || old(p.s)[0] != 34) ==> (forall i :: 0 <= i && i < len(s) ==> !lpSpecial(s[i]) && s[i] != 64) && (len(p.s) == 0 || p.s[0] == 64)
-//@   ensures @C11 a-dot-string-is-refused-only-for-a-special-in-front-of-the-at-sign: err != nil && (len(old(p.s)) == 0 || old(p.s)[0] != 34) ==> len(p.s) >= 1 && lpSpecial(p.s[0]) && (forall i :: 0 <= i && i < len(old(p.s)) - len(p.s) ==> !lpSpecial(old(p.s)[i]) && old(p.s)[i] != 64)
-//@   ensures @C11 a-quoted-string-ends-at-its-closing-quote: len(old(p.s)) >= 1 && old(p.s)[0] == 34 ==> (err == nil) == (qscan(old(p.s), 1) >= 1) && (err == nil ==> len(old(p.s)) - len(p.s) == qscan(old(p.s), 1) + 1)
+//@   ensures @C11 a-dot-string-contains-no-special-and-ends-at-the-at-sign: err == nil && (len(old(p.s)) == 0 || old(p.s)[0] != 34) ==> (forall i :: 0 <= i && i < len(s) ==> !lpSpecial(s[i]) && s[i] != 64 && !isCtl(s[i])) && (len(p.s) == 0 || p.s[0] == 64)
+//@   ensures @C11 a-dot-string-is-refused-only-for-a-special-or-a-control-octet-in-front-of-the-at-sign: err != nil && (len(old(p.s)) == 0 || old(p.s)[0] != 34) ==> len(p.s) >= 1 && (lpSpecial(p.s[0]) || isCtl(p.s[0])) && (forall i :: 0 <= i && i < len(old(p.s)) - len(p.s) ==> !lpSpecial(old(p.s)[i]) && old(p.s)[i] != 64 && !isCtl(old(p.s)[i]))
+//@   ensures @C11 a-quoted-string-ends-at-its-closing-quote: len(old(p.s)) >= 1 && old(p.s)[0] == 34 ==> (err == nil ==> qscan(old(p.s), 1) >= 1 && (len(old(p.s)) - len(p.s)) == qscan(old(p.s), 1) + 1) && (err != nil ==> qscan(old(p.s), 1) == -1 || ((len(old(p.s)) - len(p.s)) >= 2 && isCtl(old(p.s)[(len(old(p.s)) - len(p.s)) - 1]))) && (qscan(old(p.s), 1) >= 1 && (forall i :: 1 <= i && i < qscan(old(p.s), 1) ==> !isCtl(old(p.s)[i])) ==> err == nil)
+//@   ensures @C11 a-local-part-holds-no-control-octet: err == nil ==> (forall i :: 0 <= i && i < len(s) ==> !isCtl(s[i]))
 //@   ensures @C11 a-quoted-string-loses-its-quotes-and-escapes-only: len(old(p.s)) >= 1 && old(p.s)[0] == 34 && err == nil ==> len(s) <= len(old(p.s)) - len(p.s) - 2
 //@   ensures @C11 a-quoted-string-with-content-is-not-empty: len(old(p.s)) >= 1 && old(p.s)[0] == 34 && err == nil && qscan(old(p.s), 1) >= 2 ==> len(s) >= 1
 //@   loop 1:
 //@     invariant 1 <= len(old(p.s)) - len(p.s) && len(p.s) <= len(old(p.s)) && old(p.s)[0] == 34 && (forall i :: 0 <= i && i < len(p.s) ==> p.s[i] == old(p.s)[len(old(p.s)) - len(p.s) + i])
 //@     invariant @C11 scan: qscan(old(p.s), len(old(p.s)) - len(p.s)) == qscan(old(p.s), 1)
+//@     invariant @C11 no-control-octet-so-far: (forall i :: 1 <= i && i < (len(old(p.s)) - len(p.s)) ==> !isCtl(old(p.s)[i])) && (forall i :: 0 <= i && i < len(sb.content) ==> !isCtl(sb.content[i]))
 //@     invariant len(sb.content) <= len(old(p.s)) - len(p.s) - 1 && (len(old(p.s)) - len(p.s) >= 2 ==> len(sb.content) >= 1)
 //@     backedge @C11 each-octet-kept-is-the-octet-just-read: len(sb.content) == len(head(sb.content)) + 1 && sb.content[len(head(sb.content))] == old(p.s)[len(old(p.s)) - len(p.s) - 1]
 //@   loop 2:
 //@     invariant len(p.s) <= len(old(p.s)) && (len(old(p.s)) == 0 || old(p.s)[0] != 34) && (forall i :: 0 <= i && i < len(p.s) ==> p.s[i] == old(p.s)[len(old(p.s)) - len(p.s) + i])
 //@     invariant @C11 kept-so-far-is-what-was-read: len(sb.content) == len(old(p.s)) - len(p.s) && (forall i :: 0 <= i && i < len(sb.content) ==> sb.content[i] == old(p.s)[i])
-//@     invariant @C11 no-special-so-far: forall i :: 0 <= i && i < len(old(p.s)) - len(p.s) ==> !lpSpecial(old(p.s)[i]) && old(p.s)[i] != 64
+//@     invariant @C11 no-special-so-far: forall i :: 0 <= i && i < len(old(p.s)) - len(p.s) ==> !lpSpecial(old(p.s)[i]) && old(p.s)[i] != 64 && !isCtl(old(p.s)[i])
 //@ contract checkNotifySet(values) (err)
 //@   prop C11 C14 C15 C19
 //@   ensures @C11,C15,C14 only-the-four-keywords: err == nil ==> len(values) >= 1 && (forall j :: 0 <= j && j < len(values) ==> values[j] == "NEVER" || values[j] == "DELAY" || values[j] == "FAILURE" || values[j] == "SUCCESS")
